@@ -130,6 +130,77 @@ fn main() {
             let out = conc_check::conc_worker(prop, thorough, base, idx, stride, total, std::path::Path::new(&args[8]));
             println!("{}", serde_json::to_string(&out).unwrap());
         }
+        Some("det-dump") => {
+            // det-dump <prop> <first> <n>: one line per run with everything that must be a function of the seed
+            let prop = args[2].clone();
+            let first: u64 = args[3].parse().unwrap();
+            let n: u64 = args[4].parse().unwrap();
+            let base = check::base_seed();
+            for i in first..first + n {
+                if prop == "C15" || prop == "C16" {
+                    let run = conc_check::execute(&prop, base, i, false, false);
+                    let v = if prop == "C15" { conc_check::c15_violations(&run.prep, &run.res) } else { conc_check::c16_violations(&run.prep, &run.res, &mut Default::default()) };
+                    println!("{i} log={:016x} grants={:016x} steps={} decisions={} final={:016x} viol={:?}", run.res.log_hash, run.res.grant_hash, run.res.counters.steps, run.res.decisions.len(), rng::hash_str(run.res.final_canon.as_deref().unwrap_or("")), v.iter().map(|x| x.sig.clone()).collect::<Vec<_>>());
+                } else {
+                    let seed = check::run_seed_of(base, &prop, i);
+                    let cfg = profiles::hist_cfg(&prop, seed, false);
+                    let r = hist::run_history(&cfg);
+                    let mut h = 0u64;
+                    for o in &r.ops {
+                        h = h.rotate_left(5) ^ rng::hash_str(&o.ret) ^ o.post_hash;
+                    }
+                    println!("{i} log={:016x} ops={} hist={h:016x} simns={} ghosts={:?} viol={:?}", r.log_hash, r.ops.len(), r.sim_ns, r.ghost_fired_at, r.violations.iter().map(|x| x.sig.clone()).collect::<Vec<_>>());
+                }
+            }
+        }
+        Some("self") => {
+            let what = args.get(2).map(|s| s.as_str()).unwrap_or("");
+            match what {
+                "determinism" => {
+                    let n: u64 = args.get(3).and_then(|s| s.parse().ok()).unwrap_or(600);
+                    let exe = std::env::current_exe().unwrap();
+                    let mut bad = 0;
+                    for prop in ["C04", "C10", "C11", "C12", "C15", "C16"] {
+                        // several processes, different chunkings: every line must be identical
+                        let dump = |first: u64, cnt: u64| -> Vec<String> {
+                            let out = std::process::Command::new(&exe).args(["det-dump", prop, &first.to_string(), &cnt.to_string()]).env("VERIF_QUIET_PANICS", "1").output().expect("spawn");
+                            String::from_utf8_lossy(&out.stdout).lines().map(|l| l.to_string()).collect()
+                        };
+                        let a = dump(0, n);
+                        let mut b = Vec::new();
+                        let chunk = (n / 7).max(1);
+                        let mut f = 0;
+                        let mut handles = Vec::new();
+                        while f < n {
+                            let c = chunk.min(n - f);
+                            let exe2 = exe.clone();
+                            let prop2 = prop.to_string();
+                            handles.push(std::thread::spawn(move || {
+                                let out = std::process::Command::new(&exe2).args(["det-dump", &prop2, &f.to_string(), &c.to_string()]).env("VERIF_QUIET_PANICS", "1").output().expect("spawn");
+                                String::from_utf8_lossy(&out.stdout).lines().map(|l| l.to_string()).collect::<Vec<String>>()
+                            }));
+                            f += c;
+                        }
+                        for h in handles {
+                            b.extend(h.join().unwrap());
+                        }
+                        let diffs = a.iter().zip(b.iter()).filter(|(x, y)| x != y).count() + a.len().abs_diff(b.len());
+                        println!("determinism {prop}: {} runs compared across processes, {diffs} differences", a.len());
+                        if diffs > 0 {
+                            for (x, y) in a.iter().zip(b.iter()).filter(|(x, y)| x != y).take(3) {
+                                println!("  A: {x}\n  B: {y}");
+                            }
+                            bad += 1;
+                        }
+                    }
+                    std::process::exit(if bad == 0 { 0 } else { 2 });
+                }
+                _ => {
+                    eprintln!("usage: self determinism [n]");
+                    std::process::exit(2);
+                }
+            }
+        }
         Some("replay") => {
             let path = args.get(2).cloned().unwrap_or_default();
             let text = match std::fs::read_to_string(&path) {
@@ -143,6 +214,13 @@ fn main() {
             let code = match v.get("kind").and_then(|k| k.as_str()) {
                 Some("hist") => match serde_json::from_value::<check::HistReplay>(v) {
                     Ok(rep) => check::replay_hist(&rep),
+                    Err(e) => {
+                        eprintln!("bad replay file: {e}");
+                        2
+                    }
+                },
+                Some("diff") => match serde_json::from_value::<conc_check::DiffReplay>(v) {
+                    Ok(rep) => conc_check::replay_diff(&rep),
                     Err(e) => {
                         eprintln!("bad replay file: {e}");
                         2
@@ -186,6 +264,7 @@ fn main() {
                     foreign_permille: 40,
                     bad_permille: 60,
                     load_fault_permille: 300,
+                    abuse_permille: 30,
                 };
                 let cfg = hist::HistCfg {
                     seed,
